@@ -85,7 +85,7 @@ def run(tier, seed, t0):
                      samples=samples,
                      extra=dict(theorems=proof["names"], correspondence_cases=evals, kinds=kinds),
                      assumptions=["value model: a Cow / Box / Vec is its content, so 'still equal after the buffer is freed' is the absence of unsafe code in imap-proto (c15_no_unsafe_in_imap_proto, from the translator's site inventory) plus the clobber-and-churn runs, not a theorem about the allocator",
-                                  "theorems assume wf_val (distinct field names in every record value); every model parse in the correspondence reports wf=1, not proved for all inputs",
+                                  "wf_val (distinct field names in every record value) is a hypothesis only for arbitrary values; for every value the parser returns it is proved (c15_parsed_values_well_formed) and the correspondence also reports it per case",
                                   "Option::map, Iterator::map/collect, Box::new, Cow::into_owned have their library meaning (OOptMap, OIterMap, OCollect, OBox, OCow in Owned.v)"])
     print("C15 ok: %d theorems; search %d cases; correspondence %d cases" % (proof["obligations"], total, evals))
 
